@@ -3026,6 +3026,16 @@ static char **bufr_csv_split_cells( char *tmpstr, int *nbcell, int nb_alloc )
       cells[cnt] = tok;
       ++cnt;
    } 
+/*
+ * the last cell of a line still holds the line terminator
+ */
+   if (cnt > 0)
+      {
+      tok = cells[cnt-1];
+      i = strlen( tok );
+      while ((i > 0)&&((tok[i-1] == '\n')||(tok[i-1] == '\r')))
+         tok[--i] = '\0';
+      }
 
    *nbcell = cnt;
    return cells;
